@@ -32,7 +32,11 @@ MANIFEST = dict(
          'unions of structs, inherited fields are covered by the oracle only: reference grid = shape of the referenced type x '
          'container x position of the member x declaration order; shape grid = number of members / tags / references of '
          'union and subtype-tree examples against the documented verdict); the compact form of every example '
-         '(get_examples(compact=True)) must decode strictly and encode to the full form.',
+         '(get_examples(compact=True)) must decode strictly and encode to the full form, and get_examples() read again after the '
+         'compact form has been read (twice) in the same process must hand out the same document, which must still decode '
+         'strictly and encode back to itself (observed by testing: readings of a stored example are not modelled); a default '
+         'is compared with the value of the IR and with the literal the parser read from the spec (numbers by exact value, so '
+         'an integer literal on a float field that no double holds cannot pass as its rounded neighbour).',
     note='Trusted: Lean kernel, translator, correspondence generators, CPython re / float() / strptime / base64 as external calls '
          '(tables computed by the harness with the reference libraries). Hypotheses the proofs need and the driver evaluates on every '
          'real environment: unionsAgree / envWF / envWFX / tyKnown. Not judged: the implicit example of a catch-all tag and, by '
@@ -73,6 +77,8 @@ def run(ck):
                    [('rt', ck.scale(25, 200)), ("default", ck.scale(25, 200)), ("fe", ck.scale(30, 300))])
     timed('spec_defaults', de.suite_spec_defaults, ck, builts)
     timed('spec_examples', de.suite_spec_examples, ck, builts)
+    for k, n in de.REREAD_STATS.items():
+        ck.stat('example.' + k, n)
     ck.assumptions.extend([
         'the compile-time description sent to the model (CApi) is read from the IR objects by the harness (field order, defaults, '
         'tag types); the class tables the model derives from it (envOfC) are compared with the real classes only through behaviour '
